@@ -131,7 +131,11 @@ func (p *Program) verifyFunction(fn *ssa.Function, fc *FuncContract, noAssume ma
 		for _, c := range fc.Requires {
 			g, err := env.EvalBool(c.Expr)
 			if err != nil {
-				x.errorf("%s:%d: %v", c.File, c.Line, err)
+				lbl := c.Label
+				if lbl == "" {
+					lbl = "requires"
+				}
+				st.unbound("pre", "own:"+lbl, fc.Props, fn.Pos(), c.Expr, err)
 				continue
 			}
 			st.Assume(g)
